@@ -8,6 +8,9 @@ import (
 )
 
 func (r *Repo) Delete(_ context.Context, id string) (model.Transaction, error) {
+	r.m.Lock()
+	defer r.m.Unlock()
+
 	tx, ok := r.storage.Load(id)
 	if !ok {
 		return model.Transaction{}, fs_db.ErrTxNotFound
